@@ -93,6 +93,20 @@ class CompositeTransform(SpatialTransform):
         super().__init__(grid)
         self._transforms = ModuleDict(transforms)
 
+    def __copy__(self: TCompositeTransform) -> TCompositeTransform:
+        r"""Make shallow copy of this transformation and the transformations it is composed of.
+
+        In-place modifications of the copy such as of its conditioning, grid, and buffers, which
+        are passed on to the individual transformations, must not modify the transformations
+        of the original composite transformation. Parameter tensors are shared with the copy.
+
+        """
+        copy = super().__copy__()
+        copy._transforms = ModuleDict(
+            OrderedDict((name, shallow_copy(t)) for name, t in self._transforms.items())
+        )
+        return copy
+
     def bool(self) -> bool:
         r"""Whether this module has at least one transformation."""
         return len(self._transforms) > 0
